@@ -19,7 +19,7 @@ For each change write into /tmp/mut/{ID}/ (create it):
   <x>.patch      - output of `git diff` in the worktree for that change alone (must apply to /repo HEAD with `git apply`)
   <x>.demo_test.go or <x>.demo.md - a demonstration: preferably a small Go test (placed temporarily in the worktree's package to run it, then copied to /tmp/mut/{ID}/, NOT part of the patch) that passes on unmodified HEAD and fails with the change applied, showing the property violated; if a test is impractical, a precise written scenario (inputs/sequence, expected vs. actual behaviour with code references)
   <x>.meta.json  - {{"property": "{ID}", "change": "<x>", "files": [...], "summary": "<one sentence: what was changed>", "breaks": "<how the property is violated>", "trigger": "<what specific input / configuration / timing is needed to see it>", "tests_run": "<command(s)> -> pass"}}
-Reset the worktree (`git checkout -- .`) between change a and change b so that each patch stands alone. Finish with a short report listing the two changes, their triggers, and the test results. Be efficient: read only the code you need (start from the anchors).
+NEVER use `git stash` (the stash is shared with /repo and with other people working in parallel); to get back to HEAD use `git checkout -- .` or `git apply -R`. Reset the worktree (`git checkout -- .`) between change a and change b so that each patch stands alone. Finish with a short report listing the two changes, their triggers, and the test results. Be efficient: read only the code you need (start from the anchors).
 
 THE PROPERTY ({ID}):
 """
